@@ -408,11 +408,47 @@ func c14Program(kind int, seed int) (o c14out) {
 func TestC14Cold(t *testing.T) {
 	c := ev.For("C14")
 	defer c.Done()
-	c.Rule("TestC14Cold: per process (shard) one concurrent cold start - 16 goroutines x 10..40 programs of the four TestC14Batch kinds, generated and run inside the goroutines before any other library call of the process; " +
+	c.Rule("TestC14Cold: per process (shard) one concurrent cold start - first one aligned wave per match-field constructor, action constructor, packet-header family, switch-originated message kind (Parse) and registry lookup (all 16 goroutines use the same constructor with generated arguments at the same moment and encode the result; order rotated per process), then 16 goroutines x 10..40 programs of the four TestC14Batch kinds, generated and run inside the goroutines before any other library call of the process; " +
 		"oracle: -race report, crash, or any difference from the sequential re-run of the same programs.")
 	const G = 16
 	per := ev.Scale(10, 40)
 	base := envInt("VERIF_SEED", 1)*1000003 + envInt("VERIF_SHARD", 0)*7919
+	// Phase 0, aligned waves: for every match-field and action constructor in turn (order rotated per process) all
+	// goroutines use that one constructor at the same moment, so that the process's FIRST use of whatever the
+	// constructor touches happens on 16 goroutines at once. Nothing in a wave synchronises the goroutines with
+	// each other (no transaction id is drawn), so the race detector sees an unsynchronised lazily built table
+	// on any schedule, not only when the accesses really overlap in time.
+	waves := c14Waves()
+	rot := (envInt("VERIF_SHARD", 0)*37 + envInt("VERIF_SEED", 1)*11) % len(waves)
+	waves = append(append([]c14Wave{}, waves[rot:]...), waves[:rot]...)
+	wouts := make([][][]byte, len(waves))
+	for wi, w := range waves {
+		wouts[wi] = make([][]byte, G)
+		gate := make(chan struct{})
+		var wwg sync.WaitGroup
+		for g := 0; g < G; g++ {
+			wwg.Add(1)
+			go func(g int) {
+				defer wwg.Done()
+				<-gate
+				wouts[wi][g] = w.run(base + g*977 + wi)
+			}(g)
+		}
+		close(gate)
+		wwg.Wait()
+	}
+	for wi, w := range waves {
+		for g := 0; g < G; g++ {
+			c.Eval()
+			if ref := w.run(base + g*977 + wi); !bytes.Equal(ref, wouts[wi][g]) {
+				c.Report(t, "C14|cold-start|cross-talk|bytes|"+w.name, fmt.Sprintf("%s with seed %d on goroutine %d of %d, all goroutines using this constructor at once (wave %d of the process): concurrent %s, sequential %s",
+					w.name, base+g*977+wi, g, G, wi, hx(wouts[wi][g]), hx(ref)), map[string]any{"wave": w.name})
+				return
+			}
+		}
+		c.NonTrivial(ev.HashStr("wave", w.name, fmt.Sprint(base)))
+	}
+	c.LabelN("cold_waves", int64(len(waves)))
 	outs := make([][]c14out, G)
 	start := make(chan struct{})
 	var wg sync.WaitGroup
@@ -450,6 +486,116 @@ func TestC14Cold(t *testing.T) {
 		}
 	}
 	c.Label("cold_start")
+}
+
+// c14Wave: one constructor, used with generated arguments and encoded. Building the table calls nothing in the library.
+type c14Wave struct {
+	name string
+	run  func(seed int) []byte
+}
+
+func c14Waves() []c14Wave {
+	var ws []c14Wave
+	enc := func(m interface{ MarshalBinary() ([]byte, error) }) (b []byte) {
+		defer func() {
+			if r := recover(); r != nil {
+				b = []byte("panic: " + fmt.Sprint(r))
+			}
+		}()
+		b, err := m.MarshalBinary()
+		if err != nil {
+			return []byte("error: " + err.Error())
+		}
+		return b
+	}
+	for _, fg := range gen.Fields {
+		fg := fg
+		// one generator object per call: rapid's generators are not meant to be shared between goroutines
+		ws = append(ws, c14Wave{"field:" + fg.Name, func(seed int) []byte {
+			return rapid.Custom(func(rt *rapid.T) []byte {
+				rapid.Bool().Draw(rt, "_") // constructors without arguments draw nothing of their own
+				f, _ := fg.Gen(gen.New(rt, 400))
+				return enc(f)
+			}).Example(seed)
+		}})
+	}
+	for _, ag := range gen.Actions {
+		ag := ag
+		ws = append(ws, c14Wave{"action:" + ag.Name, func(seed int) []byte {
+			return rapid.Custom(func(rt *rapid.T) []byte {
+				rapid.Bool().Draw(rt, "_")
+				g := gen.New(rt, 400)
+				g.Depth = 1
+				a, _ := ag.Gen(g)
+				return enc(a)
+			}).Example(seed)
+		}})
+	}
+	// packet headers: build + encode, then decode the bytes into a fresh frame and encode again
+	ws = append(ws, c14Wave{"packet:Ethernet", func(seed int) []byte {
+		return rapid.Custom(func(rt *rapid.T) []byte {
+			p := gen.New(rt, 400).Ethernet(300)
+			b := enc(p.Eth)
+			e := new(protocol.Ethernet)
+			if err := e.UnmarshalBinary(append([]byte{}, b...)); err != nil {
+				return append(b, []byte(" decode-error: "+err.Error())...)
+			}
+			return append(b, enc(e)...)
+		}).Example(seed)
+	}})
+	ws = append(ws, c14Wave{"packet:DHCP", func(seed int) []byte {
+		return rapid.Custom(func(rt *rapid.T) []byte {
+			m := gen.New(rt, 600).DHCP()
+			buf := make([]byte, int(m.Val.Len())+16)
+			n, err := m.Val.Read(buf)
+			if err != nil {
+				return []byte("error: " + err.Error())
+			}
+			return buf[:n]
+		}).Example(seed)
+	}})
+	ws = append(ws, c14Wave{"packet:other-headers", func(seed int) []byte {
+		return rapid.Custom(func(rt *rapid.T) []byte {
+			p := gen.New(rt, 400).ProtoValue()
+			if p.Val == nil {
+				return nil
+			}
+			return enc(p.Val)
+		}).Example(seed)
+	}})
+	// every switch-originated kind: a conformant frame from the model through Parse, re-encoded
+	for _, k := range gen.SwitchKinds {
+		k := k
+		ws = append(ws, c14Wave{"parse:" + k, func(seed int) []byte {
+			return rapid.Custom(func(rt *rapid.T) []byte {
+				sm := gen.New(rt, 400).SwitchMessageOf(k)
+				b, big := encodeModel(sm.Tree)
+				if big {
+					return nil
+				}
+				m, err := of.Parse(b)
+				if err != nil {
+					return []byte("parse-error: " + err.Error())
+				}
+				if isNilMsg(m) {
+					return []byte("nil")
+				}
+				return enc(m)
+			}).Example(seed)
+		}})
+	}
+	// registry lookups by name
+	for _, name := range []string{"NXM_NX_REG0", "NXM_NX_REG15", "NXM_NX_XXREG3", "NXM_NX_TUN_METADATA7", "OXM_OF_ETH_DST", "NXM_NX_CT_LABEL", "NXM_NX_CT_STATE", "OXM_OF_IPV6_ND_TARGET", "NXM_NX_NOT_REGISTERED"} {
+		name := name
+		ws = append(ws, c14Wave{"lookup:" + name, func(seed int) []byte {
+			f, err := of.FindFieldHeaderByName(name, seed%2 == 1)
+			if err != nil {
+				return []byte("error")
+			}
+			return []byte(fmt.Sprintf("%#x/%d/%d/%v", f.Class, f.Field, f.Length, f.HasMask))
+		}})
+	}
+	return ws
 }
 
 var c14DHCP = rapid.Custom(func(rt *rapid.T) gen.DHCPMsg { return gen.New(rt, 600).DHCP() })
